@@ -1,6 +1,7 @@
 import Pokerface.Proofs.BetsMono
 import Pokerface.Proofs.BetsPhase
 import Pokerface.Proofs.BetsExamples
+import Pokerface.Proofs.RaiseGhost
 /-
   C12 — Raise sizes obey the minimum-raise rule and amounts cannot corrupt chips.
   Setting as in C11 (`AtTurn g p`); `x` is the amount argument of `Raise(x)` / `Bet(x)`,
@@ -208,5 +209,195 @@ example : exOversizedBet.cw = 990 ∧ exOversizedBet.prev = 990 ∧ exOversizedB
     ((exOversizedBet.run [.act none .raise 1980]).prev = 990) ∧
     (((exOversizedBet.run [.act none .raise 1980]).players[2]?.map (fun q => (q.stack, q.wager)))
       = some (3010, 1980)) := by decide
+
+/-! ## The recorded minimum raise IS "the size of the previous bet or raise of the round"
+
+  `raise_exact` / `raise_undersized` above speak of `g.prev`, the engine's own record.  The specification's quantity
+  is kept here by a GHOST (`Proofs/RaiseGhost.lean`): `RGhost.lastRaise`, updated along the run by the
+  specification's rules only (`RGhost.step`, `lastRaiseTurn`), never by looking at `prev`:
+   * when `ReadyForAll` opens a betting round: the big blind (the dealer blind when there is no big blind) preflop,
+     0 on later streets;
+   * after an accepted action in an open round, with `d` the rise of the wager to match (rule `.i8`, reading I8):
+     a `Bet` sets it to `d`; a `Raise(x)`, `x` above the wager to match, or an `Allin` sets it to `d` when `d > 0`
+     and `d` is at least the record, and leaves it otherwise (short all-in); `Call`, `Raise(x)` with `x` equal to
+     the wager to match (carried out as a call, including the completion of a short big blind), `Fold`, `Check`,
+     `Pass` leave it.
+  `LReachable .i8 g gh`: `(g, gh)` is the state and the record after some history from an accepted configuration. -/
+
+/-- The missing link: in every open betting round of every history the engine's `PreviousRaiseSize` equals the
+    specification's record. -/
+theorem recorded_is_last_raise {g : Game} {gh : RGhost} (h : LReachable .i8 g gh) (he : g.event = .roundStarted) :
+    g.prev = gh.lastRaise := prev_is_last_raise h he
+
+/-- `raise_exact` in terms of the specification's quantity: a raise request to a level `x` below the round-start
+    stack that lifts the wager to match by at least `lastRaise` — the size of the previous bet or raise of the round,
+    the big blind before any — is carried out exactly; the increment is the new recorded minimum AND the new value of
+    the specification's record. -/
+theorem raise_exact_spec {g : Game} {gh : RGhost} {p : Player} (hG : LReachable .i8 g gh)
+    (hev : g.event = .roundStarted) (hp : g.players[g.cur]? = some p) (hnl : g.opts.potLimit = false)
+    (hr : Act.raise ∈ p.allowed) {seat : Option Nat} (hs : ByCur g seat) {x : Int}
+    (hx1 : g.cw < x) (hx2 : x < p.initial) (hx3 : x - g.cw ≥ gh.lastRaise) :
+    (g.step (.act seat .raise x)).2 = none ∧
+    (g.step (.act seat .raise x)).1.cw = x ∧
+    (g.step (.act seat .raise x)).1.raiser = g.cur ∧
+    (g.step (.act seat .raise x)).1.prev = x - g.cw ∧
+    (gh.step .i8 g (.act seat .raise x)).lastRaise = x - g.cw ∧
+    ∃ q, (g.step (.act seat .raise x)).1.players[g.cur]? = some q ∧ q.wager = x ∧
+      q.stack = p.initial - x ∧ q.pot = p.pot ∧ q.bankroll = p.bankroll := by
+  have hL := prev_is_last_raise hG hev
+  obtain ⟨e1, e2, e3, e4, e5⟩ :=
+    raise_exact (g := g) (p := p) ⟨lreachable_reachable hG, hev, hp⟩ hnl hr hs hx1 hx2 (by rw [hL]; exact hx3)
+  refine ⟨e1, e2, e3, e4, ?_, e5⟩
+  rw [rghost_step_act hev e1, e2]
+  have hn : ¬ asCall .raise x g.cw := by simp [asCall]; omega
+  have h1 : 0 < x - g.cw := by omega
+  simp only [lastRaiseTurn, reduceCtorEq, if_false]
+  rw [if_pos ⟨hn, h1, hx3⟩]
+
+/-- `raise_undersized` in terms of the specification's quantity: a request that would lift the wager to match by
+    less than `lastRaise` is never carried out as an undersized raise: the player is put all-in. -/
+theorem raise_undersized_spec {g : Game} {gh : RGhost} {p : Player} (hG : LReachable .i8 g gh)
+    (hev : g.event = .roundStarted) (hp : g.players[g.cur]? = some p)
+    (hr : Act.raise ∈ p.allowed) {seat : Option Nat} (hs : ByCur g seat) {x : Int}
+    (hx1 : g.cw < x) (hx3 : x - g.cw < gh.lastRaise) :
+    (g.step (.act seat .raise x)).2 = none ∧
+    ∃ q, (g.step (.act seat .raise x)).1.players[g.cur]? = some q ∧ q.stack = 0 ∧ q.wager = p.initial := by
+  have hL := prev_is_last_raise hG hev
+  exact raise_undersized (g := g) (p := p) ⟨lreachable_reachable hG, hev, hp⟩ hr hs hx1 (by rw [hL]; exact hx3)
+
+/-- After the flop the recorded minimum raise never exceeds the wager to match (on the flop, the turn and the
+    river), in every open betting round of every history: it is 0 until somebody bets, and then the size of a bet
+    or raise that is part of the wager to match.  (False before the repair of D11.) -/
+theorem prev_le_cw_postflop {g : Game} (h : Reachable g) (he : g.event = .roundStarted) (hr : g.round ≠ .preflop) :
+    g.prev ≤ g.cw := prev_le_cw_of_reachable h he hr
+
+/-- the statement kept open above now holds -/
+theorem prev_is_actual_size_full_holds : prev_is_actual_size_full :=
+  fun _ h he hr => prev_le_cw_postflop h he (by rw [hr]; simp)
+
+/-! ### Non-vacuity -/
+
+/-- blinds 5/10; the big blind has 100 -/
+def exGhost : Config := Ex.cfg (Ex.opts 0 0 5 10) 1000 1000 100
+/-- preflop call, call, check; flop: seat 1 bets 30, seat 2 calls, seat 0 raises to 80 (by 50), seat 1 calls,
+    seat 2 is all-in for 90 (a rise of 10, short of 50), seat 0 calls -/
+def exGhostOps : List Op :=
+  [.ready, .payBlinds, .ready, .act none .call 0, .act none .call 0, .act none .check 0, .next, .ready,
+   .act none .bet 30, .act none .call 0, .act none .raise 80, .act none .call 0, .act none .allin 0, .act none .call 0]
+
+theorem exGhost_reach (k : Nat) : LReachable .i8 ((start exGhost).1.runL .i8 ⟨0⟩ (exGhostOps.take k)).1
+    ((start exGhost).1.runL .i8 ⟨0⟩ (exGhostOps.take k)).2 :=
+  ⟨exGhost, exGhostOps.take k, ⟨Ex.optsOK _ _ _ _ (by decide)⟩, by decide, rfl⟩
+
+/-- the record and the recorded minimum raise along that history: 10 preflop (the big blind before any), 0 when
+    the flop opens, 30 after the bet, 50 after the raise, still 50 after the short all-in and the calls -/
+example : (([3, 6, 8, 9, 10, 11, 12, 13, 14].map fun k =>
+      let r := (start exGhost).1.runL .i8 ⟨0⟩ (exGhostOps.take k); (r.1.cw, r.1.prev, r.2.lastRaise)) =
+    [(10, 10, 10), (10, 10, 10), (0, 0, 0), (30, 30, 30), (30, 30, 30), (80, 50, 50), (80, 50, 50), (90, 50, 50),
+     (90, 50, 50)]) ∧
+    ((start exGhost).1.runL .i8 ⟨0⟩ exGhostOps).1.event = .roundStarted ∧
+    ((start exGhost).1.runL .i8 ⟨0⟩ exGhostOps).1.round = .flop := by decide
+
+/-- hypotheses of `raise_exact_spec` / `raise_undersized_spec` at the end of that history: seat 1 (910 behind, 80 in)
+    faces 90 with the record at 50; raise is offered; `Raise(140)` lifts by exactly 50 and is carried out exactly,
+    `Raise(120)` lifts by 30 < 50 and puts seat 1 all-in -/
+example : let r := (start exGhost).1.runL .i8 ⟨0⟩ exGhostOps
+    r.1.cur = 1 ∧ (r.1.players[1]?.map fun q => (q.initial, q.allowed)) = some (990, [.allin, .fold, .call, .raise]) ∧
+    r.1.opts.potLimit = false ∧ r.1.cw = 90 ∧ r.2.lastRaise = 50 ∧
+    (r.1.step (.act none .raise 140)).1.cw = 140 ∧ (r.1.step (.act none .raise 140)).1.prev = 50 ∧
+    (r.2.step .i8 r.1 (.act none .raise 140)).lastRaise = 50 ∧
+    ((r.1.step (.act none .raise 120)).1.players[1]?.map fun q => (q.stack, q.wager)) = some (0, 990) := by decide
+
+/-- short big blind (`Ex.c3`: the big blind has 6 chips): the round opens with 6 to match and the record at the
+    big blind 10; the dealer's `Call` — and `Raise(6)`, carried out as a call — completes to 10 and is no raise: the
+    record stays 10 (reading I8) -/
+example :
+    (let r := (start Ex.c3).1.runL .i8 ⟨0⟩ [.ready, .payBlinds, .ready]; (r.1.cw, r.1.prev, r.2.lastRaise)) = (6, 10, 10) ∧
+    (let r := (start Ex.c3).1.runL .i8 ⟨0⟩ [.ready, .payBlinds, .ready, .act none .call 0];
+      (r.1.cw, r.1.prev, r.2.lastRaise)) = (10, 10, 10) ∧
+    (let r := (start Ex.c3).1.runL .i8 ⟨0⟩ [.ready, .payBlinds, .ready, .act none .raise 6];
+      (r.1.cw, r.1.prev, r.2.lastRaise)) = (10, 10, 10) := by decide
+
+/-! ## FINDING: the rule of the run-time monitor differs from the engine on a dead blind
+
+  The monitor (`harness/cmd/trace/engine_monitors.go`, rule `.monitor`) lets ANY non-call action that lifts the wager
+  to match from 0 set the record (`pcw == 0 || d >= lastRaise`).  When the preflop round is opened with nothing to
+  match although the big blind is positive — no seat owing a blind has a chip left after the ante, or no seat holds
+  the position — an `Allin` for less than the big blind lifts the wager to match from 0 by less than the big blind:
+  the engine keeps the big blind as the minimum raise (`Allin` only records a rise of at least the recorded size),
+  the monitor's record drops to the size of the all-in.  By reading I8 to the letter ("a raise/all-in that lifts the
+  wager to match by at least the previous such size", "the big blind before any") the engine is right, and the
+  monitor's disjunct `pcw == 0` is the mismatch: the rule `.i8` (`Bet`: record := d; other non-calls: d > 0 ∧ d ≥ record)
+  matches the engine on ALL histories (`recorded_is_last_raise`), and the two rules agree on every history that never
+  opens the preflop round on a dead blind (`monitor_rule_agrees`). -/
+
+/-- heads-up, big blind 10 but no seat holds the big-blind position; seat 1 has 5 chips -/
+def exDead : Config := { opts := Ex.opts 0 0 0 10, seats := [⟨100, true, false, false⟩, ⟨5, false, false, false⟩] }
+/-- the usual layout (dealer, small blind, big blind, one more seat) with an ante of 5 that eats both blind stacks;
+    the last seat is left with 7 -/
+def exDeadAnte : Config :=
+  { opts := Ex.opts 5 0 5 10,
+    seats := [⟨1000, true, false, false⟩, ⟨5, false, true, false⟩, ⟨5, false, false, true⟩, ⟨12, false, false, false⟩] }
+
+/-- The smallest counter-history to "`prev` = the monitor's record" (4 operations: `ReadyForAll`, `PayBlinds`,
+    `ReadyForAll`, `Allin` by the 5-chip seat): the round is open, 5 to match, the engine's minimum raise is still the
+    big blind 10, the monitor's record is 5, the record of rule `.i8` is 10.  The history passes through a dead
+    blind, so `prev_is_last_raise_monitor` does not apply. -/
+theorem monitor_rule_counterexample :
+    (start exDead).2 = none ∧
+    (let r := (start exDead).1.runL .monitor ⟨0⟩ [.ready, .payBlinds, .ready, .act none .allin 0]
+     r.1.event = .roundStarted ∧ r.1.cw = 5 ∧ r.1.prev = 10 ∧ r.2.lastRaise = 5) ∧
+    ((start exDead).1.runL .i8 ⟨0⟩ [.ready, .payBlinds, .ready, .act none .allin 0]).2.lastRaise = 10 ∧
+    ((start exDead).1.run [.ready, .payBlinds]).deadBlind := by decide
+
+/-- The same with the usual layout and an ante; and what the monitor would then report as a violation of
+    `raise_exact` although the engine follows reading I8: `Raise(14)` by the dealer lifts the 7 to match by 7 — at
+    least the monitor's record 7, less than the engine's (and rule `.i8`'s) 10 — and is carried out as an all-in. -/
+theorem monitor_rule_counterexample_ante :
+    (start exDeadAnte).2 = none ∧
+    (let r := (start exDeadAnte).1.runL .monitor ⟨0⟩ [.ready, .payAnte, .payBlinds, .ready, .act none .allin 0]
+     r.1.event = .roundStarted ∧ r.1.cw = 7 ∧ r.1.prev = 10 ∧ r.2.lastRaise = 7 ∧ r.1.cur = 0 ∧
+     (r.1.players[0]?.map fun q => (q.initial, q.allowed)) = some (995, [.allin, .fold, .call, .raise]) ∧
+     ((r.1.step (.act none .raise 14)).1.players[0]?.map fun q => (q.stack, q.wager)) = some (0, 995)) ∧
+    ((start exDeadAnte).1.runL .i8 ⟨0⟩ [.ready, .payAnte, .payBlinds, .ready, .act none .allin 0]).2.lastRaise = 10 := by
+  decide
+
+/-- Outside that corner the monitor's rule is the rule of I8: along every history that never opens the preflop round
+    on a dead blind the two records coincide step by step, hence the monitor's record equals `PreviousRaiseSize`
+    in every open betting round. -/
+theorem monitor_rule_agrees (c : Config) (wf : WFConfig c) (hs : (start c).2 = none) (ops : List Op)
+    (hnd : NoDeadBlind (start c).1 ops) :
+    (start c).1.runL .monitor ⟨0⟩ ops = (start c).1.runL .i8 ⟨0⟩ ops ∧
+    (((start c).1.runL .monitor ⟨0⟩ ops).1.event = .roundStarted →
+      ((start c).1.runL .monitor ⟨0⟩ ops).1.prev = ((start c).1.runL .monitor ⟨0⟩ ops).2.lastRaise) :=
+  ⟨monitor_eq_i8_start c wf hs ops hnd, prev_is_last_raise_monitor c wf hs ops hnd⟩
+
+/-- non-vacuity: the flop history above never meets a dead blind -/
+example : NoDeadBlind (start exGhost).1 exGhostOps := by decide
+
+/-! ### OBSERVATION: `Bet(0)` is accepted and erases the big blind as minimum raise (dead blind only)
+
+  Under rule `.i8` every accepted `Bet` is a bet, also `Bet(0)` (the engine accepts it whenever bet is offered: it
+  moves no chip, marks the seat as having acted, and records 0 as the minimum raise).  After the flop that changes
+  nothing (the record is 0 as long as nothing is to match, `prev_le_cw_postflop`).  On a dead blind it replaces the
+  big blind by 0: below, after `Bet(0)` an all-in for 7 becomes the minimum raise and `Raise(14)` — a raise by 7 with a
+  big blind of 10 and no bet of positive size before the all-in — is carried out as a raise, whereas WITHOUT the
+  `Bet(0)` the very same request is turned into an all-in (minimum raise still 10).  If one reads "a bet" as a bet
+  of positive size, the first outcome contradicts "a request that would lift it by less [than the big blind before
+  any] is never carried out as an undersized raise"; under reading I8 to the letter both outcomes conform. -/
+def exBetZero : Config :=
+  { opts := Ex.opts 5 0 5 10,
+    seats := [⟨12, true, false, false⟩, ⟨5, false, true, false⟩, ⟨5, false, false, true⟩, ⟨1000, false, false, false⟩] }
+
+example :
+    (let r := (start exBetZero).1.runL .i8 ⟨0⟩ [.ready, .payAnte, .payBlinds, .ready, .act none .bet 0]
+     (r.1.event, r.1.cw, r.1.prev, r.2.lastRaise) = (.roundStarted, 0, 0, 0)) ∧
+    (let r := (start exBetZero).1.runL .i8 ⟨0⟩ [.ready, .payAnte, .payBlinds, .ready, .act none .bet 0, .act none .allin 0,
+        .act none .pass 0, .act none .pass 0, .act none .raise 14]
+     (r.1.cw, r.1.prev, r.2.lastRaise, r.1.players[3]?.map fun q => (q.stack, q.wager)) = (14, 7, 7, some (981, 14))) ∧
+    (let r := (start exBetZero).1.runL .i8 ⟨0⟩ [.ready, .payAnte, .payBlinds, .ready, .act none .allin 0,
+        .act none .pass 0, .act none .pass 0, .act none .raise 14]
+     (r.1.cw, r.1.prev, r.2.lastRaise, r.1.players[3]?.map fun q => (q.stack, q.wager)) = (995, 995, 995, some (0, 995))) := by
+  decide
 
 end Pokerface.C12
